@@ -2,6 +2,8 @@ mod util;
 mod arr;
 mod c01;
 mod c06;
+mod c16;
+mod c17;
 mod c18;
 mod c19;
 mod hooks;
@@ -16,6 +18,7 @@ use util::*;
 struct Ctx {
     arr: Option<arr::ArrCtx>,
     c06: c06::C06State,
+    c16: c16::C16State,
     dtype: String,
     c08: Option<c08::StoreCtx>,
     c19: Option<c19::C19Ctx>,
@@ -26,7 +29,7 @@ fn exec_line(ctx: &mut Ctx, line: &str) -> String {
     let prop = toks.next().unwrap_or("");
     let second = toks.next().unwrap_or("");
     match prop {
-        "c01" | "c04" | "c06" => {
+        "c01" | "c04" | "c06" | "c16" | "c17" => {
             let (v, m) = parse_line(line);
             if second == "cfg" {
                 ctx.arr = None;
@@ -40,7 +43,10 @@ fn exec_line(ctx: &mut Ctx, line: &str) -> String {
                 let verb = v.get(2).cloned().unwrap_or_default();
                 let dtype = ctx.dtype.clone();
                 match ctx.arr.as_mut() {
-                    Some(c) => if prop == "c06" { c06::exec_op(c, &mut ctx.c06, &verb, &m, &dtype) } else { arr::exec_op(c, &verb, &m) },
+                    Some(c) => if prop == "c06" { c06::exec_op(c, &mut ctx.c06, &verb, &m, &dtype) }
+                        else if prop == "c17" { c17::exec_op(c, &mut ctx.c06, &verb, &m, &dtype) }
+                        else if prop == "c16" { c16::exec_op(c, &mut ctx.c06, &mut ctx.c16, &verb, &m, line, &dtype) }
+                        else { arr::exec_op(c, &verb, &m) },
                     None => "skip".into(),
                 }
             }
@@ -89,6 +95,8 @@ fn main() {
                 "c01" => c01::generate(&a.tier, a.seed),
                 "c04" => c01::generate_c04(&a.tier, a.seed),
                 "c06" => c06::generate(&a.tier, a.seed),
+                "c16" => c16::generate(&a.tier, a.seed),
+                "c17" => c17::generate(&a.tier, a.seed),
                 "c19" => c19::generate(&a.tier, a.seed),
                 "c08" => c08::generate(&a.tier, a.seed),
                 "c09" => c09::generate(&a.tier, a.seed),
